@@ -36,6 +36,11 @@ func findMatches(insts []bytecode.SearchInstruction, all bool, skip int, take in
 	for all || matchNumber < skip+take {
 		currentState := CreateState(filename, reader, fileOffset, lineNumber, columnNumber)
 		for currentState.status == INPROCESS {
+			if currentState.programCounter >= len(insts) {
+				// empty command body: nothing to execute
+				currentState.SUCCESS()
+				break
+			}
 			inst := insts[currentState.programCounter]
 			verifStep(inst, currentState)
 			currentState = matchInstruction(inst, currentState)
